@@ -21,8 +21,10 @@ pub open spec fn next_ep_rule(piece: u64, src: u32, dst: u32) -> u32 {
     if piece == 1 && (dst == src + 16 || src == dst + 16) { ((src + dst) / 2) as u32 } else { 0 }
 }
 
-pub open spec fn castle_rook_from(src: u32, dst: u32) -> u64 { if dst > src { sqm((dst + 1) as u32) } else { sqm((dst - 2) as u32) } }
-pub open spec fn castle_rook_to(src: u32, dst: u32) -> u64 { if dst > src { sqm((dst - 1) as u32) } else { sqm((dst + 1) as u32) } }
+pub open spec fn castle_rook_from_sq(src: u32, dst: u32) -> u32 { if dst > src { (dst + 1) as u32 } else { (dst - 2) as u32 } }
+pub open spec fn castle_rook_to_sq(src: u32, dst: u32) -> u32 { if dst > src { (dst - 1) as u32 } else { (dst + 1) as u32 } }
+pub open spec fn castle_rook_from(src: u32, dst: u32) -> u64 { sqm(castle_rook_from_sq(src, dst)) }
+pub open spec fn castle_rook_to(src: u32, dst: u32) -> u64 { sqm(castle_rook_to_sq(src, dst)) }
 
 /// The successor position the rules of chess define for moving the piece on `src` to `dst` (promoting to `promo`, 0 = none).
 pub open spec fn rules_succ(v: Pos, src: u32, dst: u32, promo: u64) -> Pos {
